@@ -883,29 +883,35 @@ def run_shard(vlib, root: str, mods: list[Mod], future: dict[str, bool], mode: s
                 found("stubtest", by_name[mm.group(1)], mm.group(2), f"stubtest: {mm.group(2) or ''}{mm.group(3)} {mm.group(4)}")
                 res["findings"][-1]["obj"] = f"{mm.group(1)}.{mm.group(2) or ''}{mm.group(3)} {mm.group(4)}"
 
-    if todo:
+    # batch run; modules whose stub does not build under stubtest are reported, removed, and the batch is re-run
+    rounds = 0
+    while todo and rounds < 4:
+        rounds += 1
         st, o = stubtest(todo)
         if st == -1:
             res["infra"] = f"stubtest {mode}: {o[-200:]}"
-        elif "not checking stubs due to mypy build errors" in o or st not in (0, 1):
-            res["log"].append(f"stubtest batch {mode}: falling back to per-module runs: {o[:300]}")
-            with ThreadPoolExecutor(max_workers=4) as ex:
-                outs = list(ex.map(lambda m: stubtest([m]), todo))
-            for m, (st1, o1) in zip(todo, outs):
-                if st1 == -1:
-                    res["infra"] = f"stubtest {mode} {m.name}: {o1[-200:]}"
-                elif "not checking stubs due to" in o1 or st1 not in (0, 1):
-                    errs = [l.split(": error: ", 1)[1] for l in o1.splitlines() if ": error: " in l and ".pyi:" in l]
-                    found("stubtest", m, None, "stubtest cannot build the stub: " + (errs[0] if errs else o1[:300]))
-                else:
-                    handle([m], o1)
-        else:
-            handle(todo, o)
+            break
+        if "not checking stubs due to mypy build errors" in o or st not in (0, 1):
+            offenders: dict[str, str] = {}
+            for l in o.splitlines():
+                mm = re.search(r"pk/gen/(\w+)\.pyi:\d+: error: (.*)$", l)
+                if mm and mm.group(1) in by_name:
+                    offenders.setdefault(mm.group(1), mm.group(2))
+            if not offenders:
+                res["log"].append(f"stubtest batch {mode}: unreadable failure, modules skipped: {o[:300]}")
+                res["infra"] = f"stubtest {mode}: {o[:200]}"
+                break
+            for nm, err in offenders.items():
+                found("stubtest", by_name[nm], None, "stubtest cannot build the stub: " + err)
+            todo = [m for m in todo if m.name not in offenders]
+            continue
+        handle(todo, o)
+        break
     res["stubs"] = stubs
     return res
 
 
-def make_shards(rng, n_shards: int, unit_per_family: int, mixes: int) -> list[tuple[list[Mod], dict[str, bool]]]:
+def make_shards(rng, n_shards: int, unit_per_family: int, mixes: int, keep: tuple[int, int] | None = None) -> list[tuple[list[Mod], dict[str, bool]]]:
     """unit modules (one construct family each, several random instances) and mixed modules"""
     mods: list[Mod] = []
     k = 0
@@ -919,6 +925,10 @@ def make_shards(rng, n_shards: int, unit_per_family: int, mixes: int) -> list[tu
         k += 1
         mods.append(gen_module(rng, f"m{k:04d}", [rng.choice(fams) for _ in range(rng.randint(3, 8))], with_all=rng.random() < 0.3))
     future = {m.name: rng.random() < 0.5 for m in mods}
+    if keep is not None:
+        # quick tier: same random stream as the full sample, but only `keep[0]` unit modules per family and `keep[1]` mixes
+        n_unit = len(list(only or CONSTRUCTS)) * unit_per_family
+        mods = [m for idx, m in enumerate(mods[:n_unit]) if idx % unit_per_family < keep[0]] + mods[n_unit:n_unit + keep[1]]
     shards: list[list[Mod]] = [[] for _ in range(n_shards)]
     for i, m in enumerate(mods):
         shards[i % n_shards].append(m)
@@ -980,7 +990,7 @@ def finding_key(f: dict[str, Any]) -> str:
     return f"{f['check']}:{f['mode']}:{f['family']}:{category(f['check'], f['msg'])}"
 
 
-def baseline_stubtest(vlib, root: str, mods: list[Mod]) -> set[str]:
+def baseline_stubtest(vlib, root: str, mods: list[Mod], _depth: int = 0) -> set[str]:
     """stubtest of every source module against ITSELF (the .py file is what mypy finds as the 'stub'): whatever it reports
     there is strictness of the oracle that no stub generator could satisfy; those exact reports are subtracted.
     A module for which this baseline cannot be computed (its source does not build under stubtest) gets the marker
@@ -992,13 +1002,12 @@ def baseline_stubtest(vlib, root: str, mods: list[Mod]) -> set[str]:
     if infra:
         return {"<infra>"}
     if "not checking stubs due to" in o or st not in (0, 1):
-        if len(mods) > 1:
-            with ThreadPoolExecutor(max_workers=4) as ex:
-                for r in ex.map(lambda m: baseline_stubtest(vlib, root, [m]), mods):
-                    out |= r
-        else:
-            out.add("<nobaseline>" + mods[0].name)
-        return out
+        offenders = {mm.group(1) for mm in re.finditer(r"pk/gen/(\w+)\.py:\d+: error:", o)} & {m.name for m in mods}
+        if not offenders or _depth > 3:
+            return {"<nobaseline>" + m.name for m in mods}
+        out = {"<nobaseline>" + nm for nm in offenders}
+        rest = [m for m in mods if m.name not in offenders]
+        return out | (baseline_stubtest(vlib, root, rest, _depth + 1) if rest else set())
     for ln in o.splitlines():
         mm = re.match(r"pk\.gen\.(\w+)(?:\.(\w+))?(\S*) (.*)$", ln)
         if mm:
@@ -1008,8 +1017,8 @@ def baseline_stubtest(vlib, root: str, mods: list[Mod]) -> set[str]:
 
 def s_stage(ctx, vlib) -> None:
     rng = vlib.Rng(ctx.seed, "C19-modules")
-    n_shards = ctx.n(10, 32)
-    shards = make_shards(rng, n_shards, ctx.n(3, 16), ctx.n(20, 200))
+    n_shards = ctx.n(6, 32)
+    shards = make_shards(rng, n_shards, ctx.n(3, 16), ctx.n(20, 200), keep=(2, 6) if ctx.quick else None)
     tmp = tempfile.mkdtemp(prefix="c19-")
     t0 = time.time()
     try:
@@ -1168,7 +1177,7 @@ def sig_coq(c: dict[str, Any]) -> str:
     a = f'(mkArgs {lst(c["po"])} {lst(c["pk"])} {opt(c["va"])} {lst(c["ko"])} {opt(c["kw"])})'
     mg = "true" if c["magic"] else "false"
     return (f"let a := {a} in (stub_signature {mg} a, isSome (parse_sig (print_sig (get_func_args {mg} (transform_args a)))), "
-            f"wf_params a && self_cls_plain a && elide_ok a, "
+            f"wf_params a && self_cls_plain a, "
             f"match parse_sig (print_sig (get_func_args {mg} (transform_args a))) with Some r => Some (map pname (posonly r), map pname (args r), map pname (kwonly r)) | None => None end)")
 
 
@@ -1263,19 +1272,15 @@ def c_stage(ctx, vlib) -> None:
                               {"kind": "signature", "mode": mode, "source": f"def f({sig_source(c)}): pass", "stub_line": f"def f({rt}): ..."})
             elif mhyp and not c["magic"]:
                 assert srcshape is not None
-                want = (srcshape[0] + [n for n in srcshape[1] if n.startswith("__") and not n.endswith("__")],
-                        [n for n in srcshape[1] if not (n.startswith("__") and not n.endswith("__"))], srcshape[2], srcshape[3], srcshape[4])
-                first_selfcls = (c["po"] + c["pk"])[:1] and (c["po"] + c["pk"])[0]["name"] in ("self", "cls")
-                if tuple(rshape[:5]) != want or any(rshape[5].get(k) != v for k, v in srcshape[5].items() if not first_selfcls or k not in ("self", "cls")):
+                dun = lambda n: n.startswith("__") and not n.endswith("__")  # noqa
+                k = 0
+                while k < len(srcshape[1]) and dun(srcshape[1][k]):
+                    k += 1
+                # positional-only = declared so, plus the __x names that directly continue that leading run
+                want = (srcshape[0] + srcshape[1][:k], srcshape[1][k:], srcshape[2], srcshape[3], srcshape[4])
+                if tuple(rshape[:5]) != want or any(rshape[5].get(kk) != v for kk, v in srcshape[5].items()):
                     ctx.violation(f"sig-roundtrip:{mode}", f"`def f({sig_source(c)})` -> `def f({rt})`: kinds/names/annotations not preserved",
                                   {"kind": "signature", "mode": mode, "source": sig_source(c), "stub": rt})
-            elif not mhyp and rshape is not None and srcshape is not None and not c["magic"]:
-                if tuple(rshape[:5]) != tuple(srcshape[:5]) and not (rshape[0] + rshape[1] == srcshape[0] + srcshape[1] and
-                                                                      all(n.startswith("__") for n in rshape[0] if n not in srcshape[0])
-                                                                      and set(srcshape[0]) <= set(rshape[0])):
-                    ctx.violation(f"sig-kinds:{mode}:fn_dunder" if dunder else f"sig-kinds:{mode}",
-                                  f"stubgen {mode} mode prints `def f({sig_source(c)})` as `def f({rt})`: parameter kinds changed",
-                                  {"kind": "signature", "mode": mode, "source": f"def f({sig_source(c)}): pass", "stub_line": f"def f({rt}): ..."})
         n_hyp += mhyp
     ctx.add("evaluations", len(cases))
     ctx.add("traces_validated_against_impl", 2 * len(cases))
@@ -1339,6 +1344,195 @@ def grammar_stage(ctx, vlib) -> None:
     ctx.cov["C_grammar_lists_valid_python"] = valid
     ctx.cov["C_grammar_disagreements"] = bad
     ctx.log(f"C: parser of Sig.v vs ast.parse on {len(seqs)} parameter lists ({valid} valid), {bad} disagreements")
+
+
+# ---------------------------------------------------------------- annotation printing (coq/C19/Ann.v) vs the real printer
+ANN_LEAVES = [("int", "int"), ("str", "str"), ("Base", "Base"), ("None", "None"), ("bytes", "bytes"), ("Any", "Any")]
+ANN_HEADER = ("import typing\nimport typing as t\nimport collections\nimport collections.abc\n"
+              "from typing import Any, Callable, Dict, List, Literal, Optional, Sequence, Set, Tuple, Type, Union\n"
+              "class Base: pass\n")
+
+
+def gen_ty(rng, depth: int, in_union: bool = False):
+    """(python source, Coq term of type Ann.ty)"""
+    if depth == 0 or rng.random() < 0.25:
+        src, n = rng.choice(ANN_LEAVES)
+        return src, f'(UName "{n}" RPlain [])'
+    k = rng.choice(["List", "tDict", "Seq", "OD", "Union", "Optional", "tOptional", "bar", "Callable", "CallableEll", "Literal", "tuple", "Type", "Set"]
+                   if not in_union else ["List", "tDict", "Seq", "Callable", "Literal", "tuple", "Union", "Optional"])
+    sub = lambda u=False: gen_ty(rng, depth - 1, u)  # noqa
+    if k == "List":
+        a = sub(); return f"List[{a[0]}]", f'(UName "List" (RReplace "list") [{a[1]}])'
+    if k == "Set":
+        a = sub(); return f"typing.Set[{a[0]}]", f'(UName "typing.Set" (RReplace "set") [{a[1]}])'
+    if k == "Type":
+        return "Type[Base]", '(UName "Type" (RReplace "type") [UName "Base" RPlain []])'
+    if k == "tDict":
+        a, b = sub(), sub(); return f"t.Dict[{a[0]}, {b[0]}]", f'(UName "t.Dict" (RReplace "dict") [{a[1]}; {b[1]}])'
+    if k == "Seq":
+        a = sub(); return f"Sequence[{a[0]}]", f'(UName "Sequence" RPlain [{a[1]}])'
+    if k == "OD":
+        a, b = sub(), sub(); return f"collections.OrderedDict[{a[0]}, {b[0]}]", f'(UName "collections.OrderedDict" RPlain [{a[1]}; {b[1]}])'
+    if k == "Union":
+        xs = [sub(True) for _ in range(rng.randint(1, 3))]
+        return "Union[" + ", ".join(x[0] for x in xs) + "]", '(UName "Union" RUnion [' + "; ".join(x[1] for x in xs) + "])"
+    if k in ("Optional", "tOptional"):
+        a = sub(True); nm = "Optional" if k == "Optional" else "t.Optional"
+        return f"{nm}[{a[0]}]", f'(UName "{nm}" ROptional [{a[1]}])'
+    if k == "bar":
+        xs = [gen_ty(rng, depth - 1, True) for _ in range(rng.randint(2, 3))]
+        xs = [x for x in xs if not x[1].startswith("(UUnion")]
+        return " | ".join(x[0] for x in xs), "(UUnion [" + "; ".join(x[1] for x in xs) + "])"
+    if k == "Callable":
+        xs = [sub() for _ in range(rng.randint(0, 2))]; r = sub()
+        return "Callable[[" + ", ".join(x[0] for x in xs) + f"], {r[0]}]", '(UName "Callable" RPlain [UList [' + "; ".join(x[1] for x in xs) + f"]; {r[1]}])"
+    if k == "CallableEll":
+        r = sub(); return f"Callable[..., {r[0]}]", f'(UName "Callable" RPlain [UEll; {r[1]}])'
+    if k == "Literal":
+        vs = rng.sample(["'a'", "1", "True", "'b c'", "-2"], rng.randint(1, 3))
+        return "Literal[" + ", ".join(vs) + "]", '(UName "Literal" RPlain [' + "; ".join(f'ULit "{v}"' for v in vs) + "])"
+    a = sub()
+    return f"tuple[{a[0]}, ...]", f'(UName "tuple" RPlain [{a[1]}; UEll])'
+
+
+def canon_ast(n: ast.AST) -> str:
+    if isinstance(n, ast.BinOp) and isinstance(n.op, ast.BitOr):
+        items: list[ast.AST] = []
+
+        def flat(x: ast.AST) -> None:
+            if isinstance(x, ast.BinOp) and isinstance(x.op, ast.BitOr):
+                flat(x.left); flat(x.right)
+            else:
+                items.append(x)
+        flat(n)
+        return "U[" + ",".join(canon_ast(x) for x in items) + "]"
+    if isinstance(n, ast.Subscript):
+        sl = n.slice
+        elts = list(sl.elts) if isinstance(sl, ast.Tuple) else [sl]
+        return "N(" + ast.unparse(n.value) + ",[" + ",".join(canon_ast(x) for x in elts) + "])"
+    if isinstance(n, (ast.Name, ast.Attribute)):
+        return "N(" + ast.unparse(n) + ",[])"
+    if isinstance(n, ast.List):
+        return "L[" + ",".join(canon_ast(x) for x in n.elts) + "]"
+    if isinstance(n, ast.Constant) and n.value is Ellipsis:
+        return "E"
+    if isinstance(n, ast.Constant) and n.value is None:
+        return "N(None,[])"
+    return "T(" + ast.unparse(n) + ")"
+
+
+ANN_COQ_HEADER = """From Coq Require Import List String Bool.
+From C19 Require Import Ann.
+Import ListNotations.
+Open Scope string_scope.
+Fixpoint show (t : nty) : string :=
+  let fix go (l : list nty) : string := match l with [] => "" | [x] => show x | x :: r => show x ++ "," ++ go r end in
+  match t with
+  | NName n args => "N(" ++ n ++ ",[" ++ go args ++ "])"
+  | NList items => "L[" ++ go items ++ "]"
+  | NUnion items => "U[" ++ go items ++ "]"
+  | NEll => "E"
+  | NLit s => "T(" ++ s ++ ")"
+  end.
+"""
+
+
+def ann_stage(ctx, vlib) -> None:
+    import builtins
+    rng = vlib.Rng(ctx.seed, "C19-ann")
+    cases = []
+    seen = set()
+    for _ in range(ctx.n(400, 3000)):
+        src, coq = gen_ty(rng, rng.randint(1, 3))
+        if src not in seen and "(UUnion []" not in coq and "(UUnion [(" + "" not in "":
+            seen.add(src)
+            cases.append((src, coq))
+    cases = [c for c in cases if "UUnion []" not in c[1] and not re.search(r"\(UUnion \[\([^;]*\)\]\)$", c[1])]
+    body = ANN_HEADER + "".join(f"def f{i}(x: {src}) -> None: pass\n" for i, (src, _) in enumerate(cases))
+    tmp = tempfile.mkdtemp(prefix="c19ann-")
+    real: dict[str, dict[int, str]] = {}
+    stubs: dict[str, str] = {}
+    try:
+        open(os.path.join(tmp, "annmod.py"), "w").write(body)
+        for mode in ("parse", "semantic"):
+            out = os.path.join(tmp, "out_" + mode)
+            st, o = vlib.sh([vlib.PY, "-m", "mypy.stubgen", *MODES[mode], "-o", out, "annmod.py"], cwd=tmp, env=vlib.py_env(), timeout=900)
+            if st != 0:
+                ctx.broke("C", "stubgen on the annotation module", f"{mode}: exit {st}: {o[-800:]}")
+                return
+            txt = open(os.path.join(out, "annmod.pyi")).read()
+            stubs[mode] = txt
+            real[mode] = {int(m.group(1)): m.group(2) for m in re.finditer(r"(?m)^def f(\d+)\(x: (.*)\) -> None: \.\.\.$", txt)}
+    finally:
+        shutil.rmtree(tmp, ignore_errors=True)
+    exprs = [f"let t := {coq} in (render_ann (print_ty t), match parse_ann (print_ty t) with Some n => show n | None => \"NONE\" end, "
+             f"match parse_ann (print_ty t) with Some n => String.eqb (show n) (show (norm t)) | None => false end)" for _, coq in cases]
+    res = ctx.eval_cases("ann", ANN_COQ_HEADER, exprs)
+    if res is None:
+        return
+    bad = 0
+    for i, ((src, coq), r) in enumerate(zip(cases, res)):
+        m = re.match(r'^\("((?:[^"]|"")*)", "((?:[^"]|"")*)", (.*)\)$', r)
+        if not m:
+            ctx.broke("C", "cannot read annotation model output", r[:200])
+            return
+        mtext, mshow = m.group(1).replace('""', '"'), m.group(2).replace('""', '"')
+        if m.group(3).strip() != "true":
+            bad += 1
+            ctx.broke("C", "annotation model: parse (print t) <> norm t on a generated case", f"`{src}`: {r[:200]}")
+        for mode in ("parse", "semantic"):
+            rt = real[mode].get(i)
+            if rt != mtext:
+                bad += 1
+                if bad <= 5:
+                    ctx.broke("C", "model vs stubgen annotation text", f"{mode}: `{src}`: model `{mtext}` stubgen `{rt}`")
+                continue
+            try:
+                ca = canon_ast(ast.parse(rt, mode="eval").body)
+            except SyntaxError:
+                ca = "NONE"
+            if ca.replace(" ", "") != mshow.replace(" ", ""):
+                bad += 1
+                if bad <= 5:
+                    ctx.broke("C", "model annotation parser vs CPython ast", f"`{rt}`: model {mshow} CPython {ca}")
+    # combined tracker theorem on the implementation: every name of a printed annotation is builtin, defined in the stub,
+    # or imported exactly once
+    for mode in ("parse", "semantic"):
+        tree = ast.parse(stubs[mode])
+        imported: dict[str, int] = {}
+        defined = set()
+        for st_ in tree.body:
+            if isinstance(st_, ast.Import):
+                for a in st_.names:
+                    k = a.asname or a.name.split(".")[0]
+                    imported[k] = imported.get(k, 0) + (0 if (a.asname is None and k in imported) else 1)
+            elif isinstance(st_, ast.ImportFrom):
+                for a in st_.names:
+                    k = a.asname or a.name
+                    imported[k] = imported.get(k, 0) + 1
+            elif isinstance(st_, (ast.ClassDef, ast.FunctionDef)):
+                defined.add(st_.name)
+        for i, (src, _) in enumerate(cases):
+            rt = real[mode].get(i)
+            if rt is None:
+                continue
+            try:
+                names = {n.id for n in ast.walk(ast.parse(rt, mode="eval")) if isinstance(n, ast.Name)}
+            except SyntaxError:
+                continue
+            for nm in names:
+                ok = (nm in imported and imported[nm] == 1) or (nm not in imported and (nm in defined or hasattr(builtins, nm)))
+                if not ok:
+                    ctx.violation(f"ann-import:{mode}", f"stubgen {mode} mode: `{nm}` in the printed annotation `{rt}` is not builtin, not defined in the stub "
+                                  f"and not imported exactly once (import count {imported.get(nm, 0)})",
+                                  {"kind": "annotation", "mode": mode, "source": f"def f(x: {src}) -> None: pass", "annotation": rt,
+                                   "imports": [ast.unparse(x) for x in tree.body if isinstance(x, (ast.Import, ast.ImportFrom))]})
+    ctx.add("evaluations", len(cases))
+    ctx.add("traces_validated_against_impl", 2 * len(cases))
+    ctx.cov["C_annotation_cases"] = len(cases)
+    ctx.cov["C_annotation_disagreements"] = bad
+    ctx.sample({"annotation_source": cases[len(cases) // 2][0], "model": res[len(cases) // 2][:160], "stubgen": real["parse"].get(len(cases) // 2)})
+    ctx.log(f"C: {len(cases)} annotations x 2 modes (text, CPython ast of the text, import block), {bad} disagreements")
 
 
 # =====================================================================================
@@ -1497,6 +1691,7 @@ def run(ctx) -> None:
     if os.environ.get("C19_SKIP_C") != "1":
         c_stage(ctx, vlib)
         grammar_stage(ctx, vlib)
+        ann_stage(ctx, vlib)
         it_stage(ctx, vlib)
     if os.environ.get("C19_SKIP_S") != "1":
         s_stage(ctx, vlib)
